@@ -265,13 +265,14 @@ Definition simplify_spec (t : tables) (smp : list nat) (o : opts) : result :=
   let ivs := map (mk_ivl o t smp) (intervals t) in
   let emitted1 := fun u => existsb (fun c => negb (is_none (hd_error (pc_intervals o X ivs true u c)))) ns in
   let root_cand := fun u => existsb (fun iv => nth u (i_rootanc iv) false) ivs in
+  let emitted2 := fun u => existsb (fun c => negb (is_none (hd_error (pc_intervals o X ivs false u c)))) ns in
   let is_s := fun u => mem u smp in
   (* simplifier_init_nodes / simplifier_record_node / simplifier_rewind_node *)
   let order :=
     if o_fn o then
       smp
       ++ filter (fun u => negb (is_s u) && emitted1 u) (dedup (map e_parent (t_edges t)) [])
-      ++ (if o_kir o then filter (fun u => negb (is_s u) && negb (emitted1 u) && root_cand u) ns else [])
+      ++ (if o_kir o then filter (fun u => negb (is_s u) && negb (emitted1 u) && root_cand u && emitted2 u) ns else [])
     else ns in
   let nmap := map (fun u => index_of u order 0%Z) ns in
   let nm := fun u => nth u nmap (-1)%Z in
